@@ -25,7 +25,7 @@ variables.
 
 from collections.abc import MutableMapping
 from contextlib import contextmanager
-from struct import pack, unpack, unpack
+from struct import pack, unpack, unpack_from
 
 from .ebpf import AssembleError, Expression, Opcode, Map, FuncId
 from .bpf import (
@@ -74,7 +74,11 @@ class HashGlobalVarDesc:
             return self
         if instance.loaded:
             fd = instance.__dict__[self.name].fd
-            return lookup_elem(fd, pack("B", self.count), self.fmt)
+            # the kernel always transfers the full 8 bytes of the value
+            data = lookup_elem(fd, pack("B", self.count), 8)
+            if self.fmt == "x":
+                return unpack("q", data)[0] / Expression.FIXED_BASE
+            return unpack_from(self.fmt, data)[0]
         ret = instance.__dict__.get(self.name, None)
         if ret is None:
             ret = HashGlobalVar(instance, self.count, self.fmt)
@@ -87,6 +91,8 @@ class HashGlobalVarDesc:
     def __set__(self, ebpf, value):
         if ebpf.loaded:
             fd = ebpf.__dict__[self.name].fd
+            if self.fmt == "x":
+                value = round(value * Expression.FIXED_BASE)
             update_elem(fd, pack("B", self.count),
                         pack("q" if self.fmt.islower() else "Q", value))
             return
